@@ -120,7 +120,7 @@ pub fn execute(plan: &Plan, entropy: u64) -> RunReport {
         ledger::ledger_install();
         let mut rep = RunReport::default();
         let rewards = RewardsAddress::from([0x11u8; 20]);
-        let host = match NodeHost::build(0, root, data::ed_key(plan.seed, 0), None, if plan.cache == 0 { None } else { Some(plan.cache) }, rewards) {
+        let host = match NodeHost::build(0, root, data::ed_key(plan.seed, 0), if plan.capacity == 0 { None } else { Some(plan.capacity) }, if plan.cache == 0 { None } else { Some(plan.cache) }, rewards) {
             Ok(h) => h,
             Err(e) => {
                 rep.harness_error = Some(e);
@@ -1448,7 +1448,7 @@ impl<'a> World<'a> {
                         continue;
                     }
                     let (root, kp) = (self.host.root.clone(), self.host.keypair.clone());
-                    match NodeHost::build(0, root, kp, None, if self.plan.cache == 0 { None } else { Some(self.plan.cache) }, self.rewards_addr) {
+                    match NodeHost::build(0, root, kp, if self.plan.capacity == 0 { None } else { Some(self.plan.capacity) }, if self.plan.cache == 0 { None } else { Some(self.plan.cache) }, self.rewards_addr) {
                         Ok(h) => {
                             let old = std::mem::replace(&mut self.host, h);
                             self.zombies.push(old);
